@@ -52,11 +52,11 @@ def scripts_for(pid, tier, seed, fx):
     if pid == "C01":
         # every fixture family, long random histories with clock steps and invalidations
         for n in plain:
-            rnd([n], 6 if thorough else 2, 60 if thorough else 36)
+            rnd([n], 30 if thorough else 2, 90 if thorough else 36)
         groups = [n for n in fx if n.startswith("g_")]
-        rnd(groups[:5], 30 if thorough else 8, 50, registry=True)
-        for _ in range(40 if thorough else 12):
-            rnd(rng.sample(plain, 3), 1, 50)
+        rnd(groups[:5], 300 if thorough else 8, 60, registry=True)
+        for _ in range(600 if thorough else 12):
+            rnd(rng.sample(plain, 3), 1, 60)
     elif pid == "C03":
         for _, p in KINDS:
             f = p + "_plain_ret"
@@ -69,7 +69,7 @@ def scripts_for(pid, tier, seed, fx):
             # thread scope / sharing: all partitions of a history over two threads
             for s in seqs([(1, 1), (1, 2), (2, 1), (2, 2)], 5 if thorough else 4):
                 add([f], [{"op": "call", "f": f, "t": t, "k": k} for (t, k) in s], threads=2)
-            rnd([f], 20 if thorough else 6, 120 if thorough else 60, threads=3, nkeys=20)
+            rnd([f], 300 if thorough else 6, 150 if thorough else 60, threads=3, nkeys=20)
     elif pid == "C09":
         for _, p in KINDS:
             for f in (p + "_res", p + "_res_lru2", p + "_res_lfu2", p + "_res_std", p + "_res_mem_lru", p + "_res_ret"):
@@ -78,47 +78,47 @@ def scripts_for(pid, tier, seed, fx):
                     add([f], [{"op": "call", "f": f, "k": k, "ok": ok, "size": 70} for (k, ok) in s]
                         + [{"op": "call", "f": f, "k": 3, "ok": True, "size": 70},
                            {"op": "call", "f": f, "k": 1, "ok": True, "size": 70}])
-                rnd([f], 12 if thorough else 4, 60)
+                rnd([f], 150 if thorough else 4, 80 if thorough else 60)
     elif pid == "C10":
         for _, p in KINDS:
             for f in (p + "_cif", p + "_cif_lru2", p + "_inv_cif", p + "_cif_mem", p + "_cif_ttl2"):
                 for s in seqs([(1, True), (1, False), (2, True), (2, False)], 5 if thorough else 4):
                     add([f], [{"op": "call", "f": f, "k": k, "cif": c, "inv": False, "size": 60} for (k, c) in s]
                         + [{"op": "call", "f": f, "k": 3, "cif": True}, {"op": "call", "f": f, "k": 1, "cif": True}])
-                rnd([f], 12 if thorough else 4, 60)
+                rnd([f], 150 if thorough else 4, 80 if thorough else 60)
             f = p + "_res_cif"
             for s in seqs([(1, True, True), (1, True, False), (1, False, True), (1, False, False), (2, True, True)],
                           4 if thorough else 3):
                 add([f], [{"op": "call", "f": f, "k": k, "cif": c, "ok": ok} for (k, c, ok) in s]
                     + [{"op": "call", "f": f, "k": 1, "cif": True, "ok": True}])
-            rnd([f], 12 if thorough else 4, 60)
+            rnd([f], 150 if thorough else 4, 80 if thorough else 60)
     elif pid == "C11":
         for _, p in KINDS:
             for f in (p + "_inv", p + "_inv_lru2", p + "_inv_cif"):
                 for s in seqs([(1, True), (1, False), (2, True), (2, False)], 5 if thorough else 4):
                     add([f], [{"op": "call", "f": f, "k": k, "inv": i, "cif": True} for (k, i) in s]
                         + [{"op": "call", "f": f, "k": 1, "inv": False}, {"op": "call", "f": f, "k": 2, "inv": False}])
-                rnd([f], 12 if thorough else 4, 60)
+                rnd([f], 150 if thorough else 4, 80 if thorough else 60)
             f = p + "_inv_mem"
             for s in seqs([(1, True, 50), (1, False, 50), (1, True, 130), (2, True, 60), (2, False, 130)], 4 if thorough else 3):
                 add([f], [{"op": "call", "f": f, "k": k, "inv": i, "size": sz} for (k, i, sz) in s]
                     + [{"op": "call", "f": f, "k": 1, "inv": False, "size": 50}, {"op": "call", "f": f, "k": 2, "inv": False, "size": 50}])
-            rnd([f], 12 if thorough else 4, 60)
+            rnd([f], 150 if thorough else 4, 80 if thorough else 60)
             f = p + "_inv_ttl2"
             alpha = [{"op": "call", "f": f, "k": 1, "inv": True}, {"op": "call", "f": f, "k": 1, "inv": False},
                      {"op": "tick", "d": 1}, {"op": "call", "f": f, "k": 2, "inv": False}]
             for s in seqs(alpha, 5 if thorough else 4):
                 add([f], list(s) + [{"op": "call", "f": f, "k": 1, "inv": False}])
-            rnd([f], 12 if thorough else 4, 60)
+            rnd([f], 150 if thorough else 4, 80 if thorough else 60)
     elif pid in ("C12", "C13"):
         groups = [n for n in fx if n.startswith("g_")]
-        for _ in range(220 if thorough else 60):
+        for _ in range(2500 if thorough else 60):
             ns = rng.sample(groups, rng.choice([2, 3, 4, 5]))
             rnd(ns, 1, 60 if thorough else 40, registry=True, stats=False, nkeys=4)
         # policies / limits behind invalidate_with on ordinary fixtures
         for _, p in KINDS[0:3:2]:
             for f in (p + "_lru2", p + "_lfu3_ttl2", p + "_arc2", p + "_mem_lru", p + "_fifo3_ttl2"):
-                rnd([f], 10 if thorough else 3, 50, registry=True, nkeys=5)
+                rnd([f], 150 if thorough else 3, 60, registry=True, nkeys=5)
     elif pid == "C14":
         for pol in ("plain", "lru2", "fifo2", "lfu2", "arc2", "random2", "tlru2"):
             tf, sf, af = "t_" + pol, "s_" + pol, "a_" + pol
@@ -130,17 +130,17 @@ def scripts_for(pid, tier, seed, fx):
                 for s in seqs([(1, 1), (1, 2), (2, 1), (2, 2)], L):
                     add([f], [{"op": "call", "f": f, "t": t, "k": k} for (t, k) in s]
                         + [{"op": "call", "f": f, "t": 3, "k": 1}, {"op": "call", "f": f, "t": 3, "k": 2}], threads=3)
-            rnd([tf, sf, af], 10 if thorough else 3, 80, threads=4, nkeys=4)
+            rnd([tf, sf, af], 150 if thorough else 3, 100, threads=4, nkeys=4)
         for tf in ("t_mem_lru", "t_mem_fifo", "t_mem_lfu", "t_mem_arc_l3"):
             for s in seqs([(1, 1), (1, 2), (1, 3), (2, 1), (2, 4), (3, 1)], 5 if thorough else 4):
                 add([tf], [{"op": "call", "f": tf, "t": t, "k": k, "size": 40} for (t, k) in s]
                     + [{"op": "call", "f": tf, "t": t, "k": k, "size": 40} for t in (1, 2) for k in (1, 2, 3)], threads=3)
-            rnd([tf], 10 if thorough else 4, 70, threads=3, nkeys=5)
+            rnd([tf], 100 if thorough else 4, 90, threads=3, nkeys=5)
         for tf in ("t_tags", "t_deps"):
             for s in seqs([(1, 1), (1, 2), (2, 1), (2, 2), (3, 1)], 5 if thorough else 4):
                 add([tf], [{"op": "call", "f": tf, "t": t, "k": k} for (t, k) in s]
                     + [{"op": "call", "f": tf, "t": t, "k": k} for t in (1, 2, 3) for k in (1, 2)], threads=3)
-            rnd([tf, "g_a"], 10 if thorough else 4, 60, threads=3, nkeys=3, registry=True)
+            rnd([tf, "g_a"], 100 if thorough else 4, 80, threads=3, nkeys=3, registry=True)
     elif pid == "C20":
         for f in ("a_await1", "a_await2_ttl2", "a_await3_res", "a_await2_mem"):
             fi = fx[f]
@@ -192,19 +192,19 @@ def scripts_for(pid, tier, seed, fx):
     elif pid == "C15":
         names = ["s_plain", "a_plain", "s_lru2", "a_lfu3_ttl2", "s_ttl1", "a_ttl1", "s_res", "a_res_cif",
                  "g_alias", "g_alias_async", "g_a", "g_dep", "s_inv", "a_inv_ttl2", "s_mem_lru", "a_mem_fifo"]
-        for _ in range(200 if thorough else 60):
+        for _ in range(3000 if thorough else 60):
             ns = rng.sample(names, rng.choice([1, 2, 3]))
             rnd(ns, 1, 70 if thorough else 45, stats=True, registry=any(n.startswith("g_") for n in ns), threads=3)
     return out
 
 
-def nowarm_scripts(pid, seed, fx):
+def nowarm_scripts(pid, seed, fx, tier_="quick"):
     """Histories in which some functions are first called mid-run (registration order matters);
     each needs a fresh process."""
     rng = random.Random(seed * 77 + int(pid[1:]))
     groups = [n for n in fx if n.startswith("g_")]
     out = []
-    for i in range(6):
+    for i in range(6 if tier_ != "thorough" else 40):
         ns = rng.sample(groups, 4)
         cold = ns[:2]
         s = random_script(rng, fx, ns, 9000 + i, 45, registry=True, nkeys=3, threads=1)
@@ -225,10 +225,10 @@ def spec_generated_scripts(pid, tier, seed, wd):
               invariants=["Emit"])
     meta = os.path.join(WORK, "meta_%s_sim" % pid)
     shutil.rmtree(meta, ignore_errors=True)
-    n = 3000 if thorough else 500
+    n = 20000 if thorough else 500
     p = sh(["timeout", "900", "tlc", "-workers", "1", "-simulate", "num=%d" % n, "-depth", str(depth * 2 + 4), "-seed", str(seed),
             "-metadir", meta, "-cleanup", "-noGenerateSpecTE", "-config", cfg, os.path.join(SPEC, "SystemSim.tla")],
-           cwd=SPEC, env={"JAVA_TOOL_OPTIONS": "-Xss1g"}, timeout=1000, check=False)
+           cwd=SPEC, env={"JAVA_TOOL_OPTIONS": "-Xss1g"}, timeout=2500, check=False)
     shutil.rmtree(meta, ignore_errors=True)
     scripts, seen = [], set()
     for line in p.stdout.splitlines():
@@ -262,7 +262,7 @@ def run_macro_check(pid, tier, seed, wd):
     # ------------------------------------------------------------------ 1. model checking
     mc = SYS_MC[pid]
     mc_cfg = os.path.join(wd, "SystemMC.cfg")
-    consts = {"Quirks": set(), "Keys": set(mc["keys"]), "MaxVer": 4 if thorough else 3, "MaxHits": 1,
+    consts = {"Quirks": set(), "Keys": set(mc["keys"]), "MaxVer": 5 if thorough else 3, "MaxHits": 2 if thorough else 1,
               "SizesMem": {1, 2, 4}, "LayoutSet": mc["layout"], "MaxLookups": mc["lookups"]}
     write_cfg(mc_cfg, "Spec", consts, invariants=["SysStateOK", "StatsAgree"], properties=["NoMonitorFails"],
               constraint="Bounded", view="View")
@@ -286,7 +286,7 @@ def run_macro_check(pid, tier, seed, wd):
     rs = harness_json(["macro", "--script", sp, "--out", tr], timeout=3000)
     extra = []
     if pid in ("C12", "C13"):
-        for i, s in enumerate(nowarm_scripts(pid, seed, fx)):
+        for i, s in enumerate(nowarm_scripts(pid, seed, fx, tier)):
             spi = os.path.join(wd, "nowarm_%d.jsonl" % i)
             write_scripts(spi, [s])
             tri = os.path.join(wd, "nowarm_%d.ndjson" % i)
